@@ -1,6 +1,6 @@
 SPECIFICATION Spec
 CONSTANTS
-  MaxCalls = 5
+  MaxCalls = 4
   Focus = {}
   MaxLive = 2
   Payloads = {"empty", "one", "html", "large", "partial"}
